@@ -51,7 +51,7 @@ seq_t dtw_warping_paths{{ suffix }}{{ suffix2 }}(seq_t *wps,
     {%- else %}
     // DTWPruned
     idx_t sc = 0;
-    idx_t ec = 0;
+    idx_t ec = settings->psi_2b;  // the psi-relaxed first row is 0 up to this column
     idx_t ec_next;
     bool smaller_found;
     {%- endif %}
@@ -163,7 +163,7 @@ seq_t dtw_warping_paths{{ suffix }}{{ suffix2 }}(seq_t *wps,
                 smaller_found = true;
                 ec_next = ci + 1;
             } else {
-                if (!smaller_found)
+                if (!smaller_found && ri >= settings->psi_1b)
                     sc = ci + 1;
                 if (ci >= ec)
                     break;
@@ -233,7 +233,7 @@ seq_t dtw_warping_paths{{ suffix }}{{ suffix2 }}(seq_t *wps,
                 smaller_found = true;
                 ec_next = ci + 1;
             } else {
-                if (!smaller_found)
+                if (!smaller_found && ri >= settings->psi_1b)
                     sc = ci + 1;
                 if (ci >= ec)
                     break;
@@ -303,7 +303,7 @@ seq_t dtw_warping_paths{{ suffix }}{{ suffix2 }}(seq_t *wps,
                 smaller_found = true;
                 ec_next = ci + 1;
             } else {
-                if (!smaller_found)
+                if (!smaller_found && ri >= settings->psi_1b)
                     sc = ci + 1;
                 if (ci >= ec)
                     break;
@@ -383,7 +383,7 @@ seq_t dtw_warping_paths{{ suffix }}{{ suffix2 }}(seq_t *wps,
                 smaller_found = true;
                 ec_next = ci + 1;
             } else {
-                if (!smaller_found)
+                if (!smaller_found && ri >= settings->psi_1b)
                     sc = ci + 1;
                 if (ci >= ec)
                     break;
